@@ -278,6 +278,9 @@ def judge (j : Json) : Except String Verdict := do
       (false, if planC.any (fun c => c.more && c.count == 0) then "C09:runaway:empty-more" else "C09:runaway",
         s!"the sender kept sending ({planC.length}+ messages for {nP}+{nC} objects) until cut off")
     else if !calls.all fullCall then
+      if (getOpt obs "first").isSome then
+        (false, "C09:restart:handler-args", s!"second session of the same stub: handler called with {calls.map fun c => (c.1.length, c.2.length)} objects, the runtime supplied {nP}/{nC} (objects of the abandoned first session, duplicates, or wrong order)")
+      else
       (false, "C09:handler-args", s!"handler called with {calls.map fun c => (c.1.length, c.2.length)} of {nP}/{nC} objects, or out of order")
     else if bad != 0 then (false, "C09:content", s!"{bad} delivered object(s) differ from what the runtime supplied")
     else if calls.length > 1 then (false, "C09:handler-calls", s!"handler called {calls.length} times")
@@ -346,13 +349,32 @@ def judge (j : Json) : Except String Verdict := do
     | .failed _ => "failed"
     | .fault => "fault"
     | .outOfFuel => "out-of-fuel"
-  let agree := normal && traceOk && planMatches && planOk && sizeOk && recvOk
+  -- kind "restart": the judged session is the SECOND one of the same stub object. The receiver
+  -- model over both sessions (`stubSessions`-style: run, close, run) must give the observed calls.
+  let firstJ := getOpt obs "first"
+  let (restartOk, restartTags, restartWhy) ← match firstJ with
+    | none => pure (true, ([] : List String), "")
+    | some fj => do
+      let plan1 ← (← getArr fj "plan").mapM getChunk
+      let calls1 ← (← getArr fj "calls").mapM fun c => do
+        pure (expandRuns (← getPairs c "pods"), expandRuns (← getPairs c "ctrs"))
+      let st1 := stubClose true (stubRun h RState.init plan1).1
+      let st2 := (stubRun h st1 planC).1
+      let ok := !normal || st2.calls == calls1 ++ calls
+      let stale := match plan1.getLast? with | some c => c.more | none => false
+      let tags := [s!"restart:first:{getStrD fj "outcome"}:{getStrD fj "err_kind"}",
+        if stale then "restart:chunks-collected-then-abandoned" else "restart:nothing-left-behind",
+        if getBoolD fj "closed" then "restart:onclose-seen" else "restart:onclose-missing"]
+      pure (ok, tags, if ok then "" else
+        s!"stub model over both sessions (close resets the accumulator) makes calls {st2.calls.map fun c => (c.1.length, c.2.length)}; observed first {calls1.map fun c => (c.1.length, c.2.length)} then {calls.map fun c => (c.1.length, c.2.length)}")
+  let agree := normal && traceOk && planMatches && planOk && sizeOk && recvOk && restartOk
   let awhy :=
     if !normal then "the model of the repaired loop neither crashes, hangs nor runs away"
     else if !traceOk then "attempts are not a behaviour of the repaired sender (out-of-range or non-prefix slice, empty `more` message, counts not shrinking, wrong `more` flag, or size/limit inconsistent)"
     else if !planMatches then "messages seen at the plugin end differ from the attempts that got through"
     else if !planOk then "plan not accepted by ValidPlan"
     else if !sizeOk then "additive size oracle differs from the measured message length"
+    else if !restartOk then restartWhy
     else if !recvOk then s!"stub model: calls {rst.calls.map fun c => (c.1.length, c.2.length)} replies {mReplies}; observed calls {calls.map fun c => (c.1.length, c.2.length)} replies {obsReplies}"
     else ""
   let why := if !spec then swhy else awhy
@@ -378,9 +400,10 @@ def judge (j : Json) : Except String Verdict := do
     ++ (if minChunk then ["min-chunk"] else [])
     ++ (if nUpd > 0 then ["updates"] else [])
     ++ (if traceOk then ["trace"] else [])
+    ++ restartTags
     ++ (if normal then [if detSame then "det-model:same-attempts" else "det-model:different-attempts",
           if detOutcome == outcome then "det-model:same-outcome" else "det-model:different-outcome"] else [])
-  let nontrivial := rejections > 0 || outcome != "synced" || handler != "record" || nUpd > 0
+  let nontrivial := rejections > 0 || outcome != "synced" || handler != "record" || nUpd > 0 || firstJ.isSome
   pure { agree := agree, spec := spec, why := why, cover := cover, nontrivial := nontrivial,
          sig := sig, excluded := false,
          model := Json.mkObj [("trace_accepted", traceOk), ("plan_valid", planOk),
